@@ -97,6 +97,9 @@ pub struct Ctx {
     pub case_digests: Vec<(u64, u64)>,
     pub want_case_digests: bool,
     pub attribute: Option<&'static str>,
+    pub enum_idx: u64,
+    pub sample: u64,
+    pub sample_phase: u64,
 }
 
 impl Ctx {
@@ -104,6 +107,7 @@ impl Ctx {
         let seed = args.seed;
         let shard = args.shard.0 as u64;
         let want = args.flag("case-digests");
+        let sample = args.num("sample", 1).max(1);
         Ctx {
             args,
             rng: Rng::new(seed.wrapping_mul(1_000_003).wrapping_add(shard)),
@@ -121,6 +125,9 @@ impl Ctx {
             case_digests: Vec::new(),
             want_case_digests: want,
             attribute: None,
+            enum_idx: 0,
+            sample,
+            sample_phase: if sample > 1 { seed % sample } else { 0 },
         }
     }
 
@@ -129,11 +136,20 @@ impl Ctx {
         *self.counters.entry(k).or_insert(0) += n;
     }
 
-    /// Partition a keyed case space over shards so that distinct-key sets are disjoint.
+    /// Partition the (deterministic) enumeration over shards by enumeration index: disjoint, so
+    /// per-shard distinct-key sets are disjoint too, and nothing is formatted for skipped items.
     #[inline]
-    pub fn mine(&self, key: u64) -> bool {
+    pub fn mine_next(&mut self) -> bool {
         let (i, n) = self.args.shard;
-        n <= 1 || (key.wrapping_mul(0x9E37_79B9_7F4A_7C15) >> 33) % (n as u64) == i as u64
+        self.enum_idx += 1;
+        // deterministic sub-sampling (sanitizer runs): keep every `sample`-th enumerated item
+        if self.sample > 1 {
+            if self.enum_idx % self.sample != self.sample_phase {
+                return false;
+            }
+            return n <= 1 || (self.enum_idx / self.sample) % (n as u64) == i as u64;
+        }
+        n <= 1 || self.enum_idx % (n as u64) == i as u64
     }
 
     /// Register the start of a case; returns false if the case is filtered out (`--only`).
